@@ -81,6 +81,7 @@ def small_shapes(g):
 def oracle_c03(ctx):
     res = Result('c03.roundtrip')
     g = ctx.gen
+    g.exotic = True      # values may be instances of well-behaved subclasses (Enum mixins, Decimal subclass ...)
     vals = small_shapes(g)
     vals += list(g.int_bounds)
     vals = [v for v in vals if not isinstance(v, int) or isinstance(v, bool) or -2 ** 63 <= v <= 2 ** 63 - 1]
@@ -93,6 +94,15 @@ def oracle_c03(ctx):
     vals += [g.shared_value_ok(g.r.choice([1, 2, 3]), 3) for _ in range(300 if ctx.thorough else 60)]
     t_ = ['a', 'b']
     vals += [{'x': t_, 'y': t_}, [t_, t_], [{'k': t_}, {'k': t_}]]
+    g.exotic = False
+    # every kind of scalar under every name a broker or client library gives a meaning to, and under keys that
+    # mean something to a formatting step
+    kinds = [60000.0, 60000, 1.5, True, '60000', D('60000'), D('6E+4'), 0.0, -0.0, 3000000000.0, float(2 ** 63), None,
+             bytearray(b'x'), ['q'], {'a': 1.0}, EPOCH + datetime.timedelta(seconds=60000)]
+    for kname in G.WELL_KNOWN_KEYS + G.FORMAT_STRINGS + list(G.MINED_STRINGS):
+        if 0 < len(kname) <= 128 and len(kname.encode('utf-8')) <= 255:
+            for kv in (kinds if ctx.thorough else g.r.sample(kinds, 6) + [60000.0]):
+                vals.append({kname: kv})
     for i, v in enumerate(vals):
         legacy = (i % 3 == 0)
         junk = g.r.choice([b'', b'', b'\x00', b'V', b'\xce', bytes(g.r.getrandbits(8) for _ in range(4))])
@@ -311,6 +321,17 @@ def oracle_c18(ctx):
                     res.violation('body round trip', {'fn': 'c18_body_case', 'args': pyrepr((content, ch, junk))} if n <= 4096 else
                                   {'fn': 'c18_body_case', 'args': '(%r * %d, %d, %r)' % (content[:1], n, ch, junk)},
                                   'round trip', bad if k == 'ok' else repr(bad))
+    # byte content handed over as zero-copy code does: a memoryview, whole or a slice of a larger buffer
+    for data in [b'a', b'abcdef', b'\xce' * 9, bytes(range(256)) * 20, b'x' * 8192]:
+        for start, stop in [(0, None), (1, None), (0, -1), (2, 4), (1, 2), (0, 4096), (4096, None)]:
+            for mutable in (False, True):
+                if not bytes(data[start:stop]):
+                    continue
+                res.case('mv %d %r %r %s' % (len(data), start, stop, mutable), tag='memoryview body')
+                k, bad = catching(c10_frame_case, 'bodymv', (data, start, stop, mutable), 7)
+                if k != 'ok' or bad:
+                    res.violation('body given as a memoryview', {'fn': 'c10_frame_case', 'args': pyrepr(('bodymv', (data, start, stop, mutable), 7))},
+                                  bad[0] if k == 'ok' else 'oracle runs', bad[1] if k == 'ok' else repr(bad))
     for ch_ in (1, 255, 256, 32768, 65535):
         res.case('heartbeat ch %d' % ch_, tag='heartbeat')
         kh, bh = catching(frame.marshal, heartbeat.Heartbeat(), ch_)
@@ -548,7 +569,34 @@ def oracle_c05(ctx):
         k, r = catching(decode.timestamp, struct.pack('>Q', nbig))
         if k == 'ok':
             res.violation('unrepresentable timestamp returned as %r' % (r,), {'fn': 'none', 'args': '()'}, 'refused', r)
+        # ... wherever a timestamp can stand: the timestamp property (alone, and between other properties), a T field
+        # of the headers table, of a method's table argument, of an array
+        t8 = struct.pack('>Q', nbig)
+        tblT = b'\x01tT' + t8
+        hdr = lambda flags, parts: refenc.envelope(2, 1, b'\x00\x3c\x00\x00' + b'\x00' * 8 + struct.pack('>H', flags) + parts)  # noqa: E731
+        forms = {'timestamp property': hdr(0x0040, t8),
+                 'timestamp property between others': hdr(0x8000 | 0x0040 | 0x0008, b'\x01a' + t8 + b'\x01b'),
+                 'T in headers': hdr(0x2000, struct.pack('>I', len(tblT)) + tblT),
+                 'T in a method table': refenc.envelope(1, 1, struct.pack('>I', 0x0032000A) + b'\x00\x00\x01q\x00' + struct.pack('>I', len(tblT)) + tblT),
+                 'T in an array': refenc.envelope(1, 1, struct.pack('>I', 0x0032000A) + b'\x00\x00\x01q\x00' + struct.pack('>I', 16) + b'\x01aA' + struct.pack('>I', 9) + b'T' + t8)}
+        for what, data in forms.items():
+            res.case('%s %d' % (what, nbig), tag='timestamp refused')
+            bad = c05_refused_case(data)
+            if bad:
+                res.violation('unrepresentable timestamp (%s) is not refused' % what, {'fn': 'c05_refused_case', 'args': pyrepr((data,))}, bad[0], bad[1])
     return res
+
+
+@replayer
+def c05_refused_case(data):
+    """a frame holding a timestamp no datetime can represent is refused (UnmarshalingException), never decoded into
+    some other instant or into nothing"""
+    k, r = catching(frame.unmarshal, data)
+    if k == 'ok':
+        return ('refused', lanes.frame_sx(r[2])[:300])
+    if not isinstance(r, exceptions.UnmarshalingException):
+        return ('UnmarshalingException', repr(r))
+    return None
 
 
 # =============================================================== C06 / C07 / C20 framing
@@ -838,6 +886,13 @@ def fault_stream(ctx, frames, per_frame):
         yield queue_declare(b'\x01kA' + struct.pack('>I', inflated) + b'b\x01b\x02b\x03')
         yield queue_declare(b'\x01kF' + struct.pack('>I', inflated) + b'\x01ab\x01')
         yield queue_declare(b'\x01kA' + struct.pack('>I', inflated))
+    # a failing value under a key / next to a string that means something to a formatting or escaping step
+    bad_values = [b'Z', b'T' + b'\xff' * 8, b'S\x00\x00\x00\x09ab', b'F\x00\x00\x00\x03\x01\xffV', b'A\x00\x00\x00\x01Z', b'D\x00', b'x\xff\xff\xff\xff', b'']
+    for kname in G.FORMAT_STRINGS + G.WELL_KNOWN_KEYS[:6] + list(G.MINED_STRINGS)[:40]:
+        kb = kname.encode('utf-8')[:255]
+        for bv in bad_values:
+            yield queue_declare(bytes([len(kb)]) + kb + bv)
+            yield queue_declare(b'\x01aS' + struct.pack('>I', len(kb)) + kb + bytes([len(kb)]) + kb + bv)
     for words in (b'\x00\x01', b'\xff\xff', b'\x00\x01\x00\x01', b'\x80\x01\x00\x00'):
         p_ = b'\x00\x3c\x00\x00' + b'\x00' * 8 + words
         yield b'\x02\x00\x01' + struct.pack('>I', len(p_)) + p_ + b'\xce'
@@ -1052,6 +1107,16 @@ def c10_frame_case(kind, payload, ch):
         f = header.ProtocolHeader(*payload)
     elif kind == 'body':
         f = body.ContentBody(payload)
+    elif kind == 'bodymv':
+        # a bytes-like body as zero-copy code passes it: a memoryview, possibly a slice of a larger buffer
+        data, start, stop, mutable = payload
+        mv = memoryview(bytearray(data) if mutable else data)[start:stop]
+        f = body.ContentBody(mv)
+        payload = bytes(data[start:stop])
+        kind = 'body'
+        kl, n_ = catching(len, f)
+        if kl == 'ok' and n_ != len(payload):
+            return ('len(body) == %d' % len(payload), n_)
     else:
         f = heartbeat.Heartbeat()
     k, b = catching(frame.marshal, f, ch)
@@ -1068,6 +1133,31 @@ def c10_frame_case(kind, payload, ch):
     else:
         ok = isinstance(f2, heartbeat.Heartbeat)
     return None if ok and r[0] == len(b) else ('the same %s frame' % kind, lanes.frame_sx(f2)[:200])
+
+
+C10_PRIMS = {'boolean': 'boolean', 'byte_array': 'byte_array', 'decimal': 'decimal', 'double': 'double', 'floating_point': 'floating_point',
+             'long_int': 'long_int', 'long_uint': 'long_uint', 'long_long_int': 'long_long_int', 'long_string': 'long_str', 'octet': 'octet',
+             'short_int': 'short_int', 'short_uint': 'short_uint', 'short_short_int': 'short_short_int', 'short_short_uint': 'short_short_uint',
+             'short_string': 'short_str', 'timestamp': 'timestamp', 'field_array': 'field_array', 'field_table': 'field_table'}
+
+
+@replayer
+def c10_prim_case(name, v):
+    if not hasattr(encode, name) or not hasattr(decode, C10_PRIMS[name]):
+        return None
+    k, b = catching(getattr(encode, name), v)
+    if k != 'ok' or documented_exception(v):
+        return None
+    k2, r = catching(getattr(decode, C10_PRIMS[name]), b)
+    if k2 != 'ok' or r[0] != len(b):
+        return ('encode.%s(%r) = %s decodes, consuming everything' % (name, v, b.hex()[:60]), '%s %r' % (k2, r))
+    if name == 'double' and isinstance(v, float):
+        ok = (v != v and r[1] != r[1]) or v == r[1]
+    elif name == 'field_table' and v is None:
+        ok = r[1] == {}
+    else:
+        ok = norm_eq(v, r[1])
+    return None if ok else ('encode.%s raises, or its bytes decode back to %r' % (name, v), repr(r[1]))
 
 
 def oracle_c10(ctx):
@@ -1090,6 +1180,25 @@ def oracle_c10(ctx):
             k, bad = catching(c10_frame_case, 'body', content, ch_)
             if k != 'ok' or bad:
                 res.violation('body frame', {'fn': 'c10_frame_case', 'args': pyrepr(('body', content, ch_))},
+                              bad[0] if k == 'ok' else 'oracle runs', bad[1] if k == 'ok' else repr(bad))
+    for data in [b'', b'a', b'abcdef', b'\xce' * 9, bytes(range(256)) * 20]:
+        for start, stop in [(0, None), (0, 0), (1, None), (0, -1), (2, 4), (1, 2), (len(data), None)]:
+            for mutable in (False, True):
+                res.case('bodymv %d %r %r %s' % (len(data), start, stop, mutable), tag='memoryview body')
+                k, bad = catching(c10_frame_case, 'bodymv', (data, start, stop, mutable), 1)
+                if k != 'ok' or bad:
+                    res.violation('memoryview body frame', {'fn': 'c10_frame_case', 'args': pyrepr(('bodymv', (data, start, stop, mutable), 1))},
+                                  bad[0] if k == 'ok' else 'oracle runs', bad[1] if k == 'ok' else repr(bad))
+    # the primitive encoders called directly with a value of ANY type: refused, or decodes back to it
+    g.exotic = True
+    pvals = [2 ** 53, 2 ** 53 + 1, -2 ** 53 - 1, 2 ** 63 - 1, 10 ** 22 + 1, 2 ** 24 + 1, 16777217.0, 1, 0, -1, 255, 256, True, False, 1.0, 0.5, '1', b'1',
+             D(1), D('1.5'), None, [], {}, 'x' * 255, 'x' * 256, '\u20ac' * 86]
+    for name in C10_PRIMS:
+        for v in pvals + [g.scalar_any() for _ in range(120 if ctx.thorough else 30)]:
+            res.case('prim %s %s' % (name, pyrepr(v)), tag='primitive ' + name)
+            k, bad = catching(c10_prim_case, name, v)
+            if k != 'ok' or bad:
+                res.violation('encode.%s accepts a value it does not preserve' % name, {'fn': 'c10_prim_case', 'args': pyrepr((name, v))},
                               bad[0] if k == 'ok' else 'oracle runs', bad[1] if k == 'ok' else repr(bad))
     n = 25000 if ctx.thorough else 4000
     specials = [D('-1.5'), D('1E-7'), D('1.5E-7'), -1, -128, 0, '', [], {}, D('0E-3'), D('-0.0'), D('1E+2'), D('12345678901'),
@@ -1129,6 +1238,7 @@ def oracle_c10(ctx):
                 if k != 'ok' or bad:
                     res.violation('%s.%s' % (meta['name'], a['name']), {'fn': 'c10_method_case', 'args': pyrepr((meta['key'], vals))},
                                   bad[0] if k == 'ok' else 'oracle runs', bad[1] if k == 'ok' else repr(bad))
+    g.exotic = False
     nprops = len(commands.Basic.Properties.__slots__)
     for i in range(nprops):
         for v in [g.scalar_any() for _ in range(25 if ctx.thorough else 8)] + [0, -1, 256, '', [], {}, False, 1.5]:
@@ -1319,10 +1429,46 @@ def c11_finish(res, steps, p):
         res.violation('toggle / refusal scenario in a fresh interpreter', {'fn': 'c11_scenario_case', 'args': pyrepr((steps,))}, bad[0], bad[1])
 
 
+@replayer
+def c11_pair_case(a, b, legacy):
+    """two integers next to each other: each one takes ITS OWN first fitting type, whatever its neighbour is"""
+    ea, eb = first_fit(a, legacy), first_fit(b, legacy)
+    with real.legacy(legacy):
+        outs = [('array', catching(encode.field_array, [a, b]), ea + eb),
+                ('array3', catching(encode.field_array, [a, b, a]), ea + eb + ea),
+                ('table', catching(encode.field_table, {'a': a, 'b': b}), b'\x01a' + ea + b'\x01b' + eb),
+                ('nested', catching(encode.field_array, [[a, b], b]), b'A' + struct.pack('>I', len(ea + eb)) + ea + eb + eb)]
+    for where, (k, got), want in outs:
+        want = struct.pack('>I', len(want)) + want
+        if k != 'ok' or got != want:
+            return ('%s of %d, %d: %s' % (where, a, b, want.hex()), got.hex() if k == 'ok' else '%s %r' % (k, got))
+    return None
+
+
+PAIR_INTS = [-2 ** 63, -2 ** 31 - 1, -2 ** 31, -65536, -65535, -40000, -32769, -32768, -200, -129, -128, -1, 0, 1, 127, 128, 200, 255, 256,
+             32767, 32768, 40000, 65535, 65536, 2 ** 31 - 1, 2 ** 31, 3000000000, 2 ** 32 - 1, 2 ** 32, 2 ** 63 - 1]
+
+
 def oracle_c11(ctx):
+    from ocommon import VInt, VIntEnum, VIntFlag
     res = Result('c11.ladder')
     g = ctx.gen
     c11_scenarios(ctx, res)
+    for a in PAIR_INTS:
+        for b in PAIR_INTS:
+            for legacy in (False, True):
+                res.case('pair %d %d %s' % (a, b, legacy), tag='adjacent integers')
+                bad = c11_pair_case(a, b, legacy)
+                if bad:
+                    res.violation('adjacent integers %d, %d legacy=%s' % (a, b, legacy), {'fn': 'c11_pair_case', 'args': pyrepr((a, b, legacy))}, bad[0], bad[1])
+                    break
+    # an IntEnum / IntFlag member or any other int subclass IS an integer: same ladder
+    for n in list(VIntEnum) + list(VIntFlag) + [VInt(x) for x in PAIR_INTS + [2 ** 63, -2 ** 63 - 1]]:
+        for legacy in (False, True):
+            res.case('subclass %s %s' % (pyrepr(n), legacy), tag='int subclass')
+            bad = c11_case(n, legacy, 'explicit')
+            if bad:
+                res.violation('table integer %s legacy=%s' % (pyrepr(n), legacy), {'fn': 'c11_case', 'args': pyrepr((n, legacy, 'explicit'))}, bad[0], bad[1])
     vals = list(g.int_bounds) + (list(range(-70000, 70001)) if ctx.thorough else list(range(-700, 701)) + list(range(32000, 33000, 7)) + list(range(65000, 66000, 7)))
     vals += [g.integer() for _ in range(4000 if ctx.thorough else 600)]
     for i, n in enumerate(vals):
@@ -2170,6 +2316,16 @@ for secs, micro, kind, offmin in cases:
         v = base
     elif kind == 'aware':
         v = base.replace(tzinfo=UTC).astimezone(datetime.timezone(datetime.timedelta(minutes=offmin)))
+    elif kind == 'aware_zone':
+        # an aware datetime in a zone with daylight saving: in the repeated hour after a fall-back the instant is
+        # told apart by `fold` alone
+        try:
+            import zoneinfo
+            z = zoneinfo.ZoneInfo(['Europe/Berlin', 'America/New_York', 'Australia/Lord_Howe', 'Pacific/Chatham', 'America/St_Johns'][offmin % 5])
+        except Exception:
+            out.append(['skip'])
+            continue
+        v = base.replace(tzinfo=UTC).astimezone(z)
     elif kind == 'struct_local':
         lt = time.localtime(secs)          # tm_gmtoff / tm_isdst of the child's zone
         v = lt
@@ -2206,6 +2362,10 @@ def oracle_c15(ctx):
                 cases.append([s + d, 0, 'struct_local', 0])
                 cases.append([s + d, 0, 'struct_z', 0])
                 cases.append([s + d, 999999, 'aware', g.r.choice([0, 60, -300, 330, 345, 765, 840, -660])])
+    # fall-back transitions 2024 of five zones (UTC instants), the repeated hour on both sides, both folds
+    for zi, s in enumerate([1729990800, 1730613600, 1712417400, 1712411100, 1730608260]):
+        for d in (-7200, -3601, -3600, -1800, -1, 0, 1, 1799, 1800, 3599, 3600, 7200):
+            cases.append([s + d, g.r.choice([0, 500000]), 'aware_zone', zi])
     for _ in range(3000 if ctx.thorough else 300):
         cases.append([g.instant_secs(), g.r.choice([0, 1, 999999]), g.r.choice(['naive', 'aware', 'struct']),
                       g.r.choice([0, 60, -300, 330, 345, 765, 840, -660])])
